@@ -41,6 +41,8 @@ SELECTIONS = [('default', {}), ('a:1', dict(lexicon='a:1')), ('a:2', dict(lexico
               ('a:1 x:1', dict(lexicon='a:1 x:1')), ('a:1 a:2', dict(lexicon='a:1 a:2')),
               ('a:2 a:1 x:1', dict(lexicon='a:2 a:1 x:1')), ('a:1 x:1 y:1', dict(lexicon='a:1 x:1 y:1')),
               ('y:1', dict(lexicon='y:1')), ('lang=en', dict(lang='en')),
+              # an extension selected without its base but with *another version* of the base (same ids)
+              ('x:1 a:2', dict(lexicon='x:1 a:2')), ('a:2 x:1 y:1', dict(lexicon='a:2 x:1 y:1')),
               ('all', dict(lexicon='*'))]
 
 
